@@ -22,6 +22,11 @@ class SVCase:
 
 @st.composite
 def sv_cases(draw: Any, feat: Optional[S.Features] = None, nrand: int = 2, max_leaves_for_values: int = 4000, config: Optional[st.SearchStrategy] = None) -> SVCase:
+    from dataclasses import replace
+
+    feat = feat or S.Features()
+    if feat.big:
+        feat = replace(feat, extremes=True, keyword_field_names=True)
     unit = draw(S.units(feat))
     # a satisfied `option max_bytes` must change nothing (C08/C13 own its acceptance boundary)
     for m in unit_messages(unit):
